@@ -266,6 +266,24 @@ func init() {
 	add("C03", ruleR03_15)
 	add("C03", ruleR03_14)
 	add("C14", ruleR03_14)
+	// round 6 (DESIGN.md section 17)
+	add("C01", ruleR01_5)
+	add("C02", ruleR15_4, ruleR01_5)
+	add("C14", ruleR01_5)
+	add("C15", ruleR01_5)
+	add("C11", ruleR01_1, ruleR01_5)
+	add("C03", ruleR03_16)
+	add("C04", ruleR03_4, ruleR05_1, ruleR09_6)
+	add("C05", ruleR12_3)
+	add("C06", ruleR19_5, ruleR09_2)
+	add("C10", ruleR09_7)
+	add("C16", ruleR06_3)
+	add("C17", ruleR17_12)
+	add("C20", ruleR03_8, ruleR20_4)
+	add("C07", ruleR16_1, ruleR08_2)
+	add("C05", ruleR16_1)
+	add("C06", ruleR16_1)
+	add("C16", ruleR16_8)
 	add("C03", ruleR03_12)
 	add("C13", ruleR03_12)
 	add("C16", ruleR03_12)
